@@ -134,7 +134,7 @@ def run(res, tier, replay):
         order = [ix(b"/c2.bin"), ix(b"/c3.bin"), ix(b"/c0.bin"), ix(b"/c4.bin"), ix(b"/c2.bin"), ix(b"/c4.bin"), ix(b"/c3.bin")]
         sc = scenario.Scn().file("in0.chm", bytes(b)).op("chm_new").op("chm_open", "h0", "in0.chm")
         for j, m_ in enumerate(order): sc.op("chm_extract", "h0", m_, "o%d_%d" % (j, m_))
-        scns.append(sc); meta.append(("chm-hist", 9500 + di, order))
+        scns.append(sc); meta.append(("chm-hist", 9500 + di, order, {k: exp[nm][:3] for k, nm in enumerate(names)}))
         for m_ in range(len(names)):
             scns.append(scenario.Scn().file("in0.chm", bytes(b)).op("chm_new").op("chm_open", "h0", "in0.chm").op("chm_extract", "h0", m_, "ref")); meta.append(("chm-ref", 9500 + di, m_))
     # one decompressor used for two sets in a row (allocator that hands freed blocks out again): the first set is closed through its head
@@ -181,6 +181,7 @@ def run(res, tier, replay):
             continue
         ex = [o for o in t.ops if o.name.endswith("_extract")]
         failed_in = {}          # folder -> status of an earlier failed call on that folder (cabinets only)
+        lzpos = None            # directed damaged CHM: where the live LZX decoder of the compressed section stands (None: no live decoder)
         for j, o in enumerate(ex):
             idx = int(o.kv["idx"]) if "idx" in o.kv else m[2][j]
             want = ref.get((m[0][:3], m[1], idx)); ncalls += 1
@@ -195,10 +196,17 @@ def run(res, tier, replay):
                 # have to touch the damaged block for this member: second recorded manifestation of the same finding
                 if k == "history" and fol is not None and failed_in.get(fol) == o.kv.get("st") and (o.outlen or 0) == 0 and want[0] == "0":
                     k = "failed-folder-sticky-error"
+                # directed damaged CHM (second reset interval 65536..131071 damaged): a member of the third, intact interval reached by
+                # skipping forward with the live decoder from a position before the damage fails, a fresh decompressor starts at the
+                # member's own reset point (known_findings.json: chm-skip-through-damaged-interval); nothing else is excused
+                if k == "history" and len(m) > 3 and m[3][idx][0] == 1 and lzpos is not None and lzpos <= 65536 and m[3][idx][1] >= 131072 \
+                        and want[0] == "0" and o.kv.get("st") == "11" and (o.outlen or 0) == 0:
+                    k = "chm-skip-through-damaged-interval"
                 if res.violation("call %d of the history (member %d) gave status %s / %s bytes, a fresh decompressor gives status %s / %s bytes" % (
                         j, idx, o.kv.get("st"), o.outlen, want[0], len(want[1] or "") // 2), sc.text(), key=k):
                     nbad += 1; break
             if fol is not None and o.kv.get("st") not in ("0", None): failed_in.setdefault(fol, o.kv.get("st"))
+            if len(m) > 3 and m[3][idx][0] == 1 and m[3][idx][2] > 0: lzpos = (m[3][idx][1] + m[3][idx][2]) if o.kv.get("st") == "0" else None
         res.count(m[0])
     res.oblige("search: %d extract calls in %d histories agree with a fresh decompressor" % (ncalls, sum(1 for m in meta if m[0].endswith("-hist"))), nbad == 0)
     res.traces += ncalls
